@@ -34,22 +34,24 @@ std::string dimsToStr(const std::vector<size_t>& d) { std::ostringstream o; o <<
 static std::string upperS(std::string s) { for (size_t i = 0; i < s.size(); ++i) s[i] = (char)toupper((unsigned char)s[i]); return s; }
 
 Hist::Hist(const Opts& o_, long idx_, CaseLog& log_) : o(o_), idx(idx_), log(log_), rng(o_.seed, (uint64_t)idx_ * 7919 + fnv(o_.profile)),
-    wild(o_.wild), managedEdited(false), declaredByName(true), external(false), specialFloats(false), analogIncomplete(false), offSpec(false), namedChannels(false), nSaves(0) {
+    wild(o_.wild), managedEdited(false), declaredByName(true), external(false), specialFloats(false), analogIncomplete(false), columnOverGaps(false), columnOverGapsReported(false), offSpec(false), namedChannels(false), nSaves(0) {
     char b[600]; snprintf(b, sizeof b, "%s/tmp_%ld", o.out.c_str(), idx); tmp = b; mkdir(tmp.c_str(), 0755);
 }
 
 std::string Hist::savePath(const char* tag) { char b[700]; snprintf(b, sizeof b, "%s/%s_%d.c3d", tmp.c_str(), tag, nSaves++); return b; }
 
 std::string Hist::freshName(const char* prefix, const std::vector<std::string>& taken) {
+    static const char alpha[] = "abcdefghijklmnopqrstuvwxyzABCDEFGHIJKLMNOPQRSTUVWXYZ0123456789_:#.-";
     for (int tries = 0; tries < 200; ++tries) {
         std::ostringstream s;
-        int style = rng.range(0, 9);
+        int style = rng.range(0, 11);
         int n = rng.range(0, 40);
-        if (style < 6) s << prefix << n;
-        else if (style == 6) s << (char)tolower(prefix[0]) << "x:" << n << "_mk";
-        else if (style == 7) s << prefix << " " << n << " b";           // embedded blank
-        else if (style == 8) s << prefix << std::string((size_t)rng.range(8, 28), 'q') << n;
-        else s << "L" << prefix << n << "#";
+        if (style < 5) s << prefix << n;
+        else if (style == 5) s << (char)tolower(prefix[0]) << "x:" << n << "_mk";
+        else if (style == 6) s << prefix << " " << n << " b";           // embedded blank
+        else if (style == 7) s << prefix << std::string((size_t)rng.range(8, 28), 'q') << n;
+        else if (style == 8) s << "L" << prefix << n << "#";
+        else { s << prefix; int k = rng.range(2, 14); for (int i = 0; i < k; ++i) s << alpha[rng.below(sizeof alpha - 1)]; }   // any letter in either case, digits, punctuation
         std::string c = s.str(); bool clash = false;
         for (size_t i = 0; i < taken.size(); ++i) if (upperS(taken[i]) == upperS(c)) { clash = true; break; }
         if (!clash) return c;
@@ -68,7 +70,9 @@ static bool floatParam0(const Snap& s, const char* g, const char* p, float& v) {
 }
 
 void Hist::checkC05(const Snap& s, const std::string& op) {
-    if (wild || managedEdited || offSpec) return;
+    if (wild || managedEdited || (offSpec && !columnOverGaps)) return;
+    if (offSpec && columnOverGaps && columnOverGapsReported) return;
+    if (columnOverGaps) columnOverGapsReported = true;
     bump("c05_checked");
     std::ostringstream d;
     std::vector<std::pair<std::string, std::string> > v;   // key, detail
@@ -81,6 +85,14 @@ void Hist::checkC05(const Snap& s, const std::string& op) {
     if (hasAnalogGroup && !intParam0(s, "ANALOG", "USED", aused)) C05V("analog_used/unreadable", "ANALOG:USED missing");
     size_t firstFilled = SIZE_MAX;
     for (size_t f = 0; f < s.frames.size(); ++f) if (!s.frames[f].empty()) { firstFilled = f; break; }
+    if (columnOverGaps) {
+        // a point/channel column was added while empty gap frames existed: the gap frames now hold just that column (C06 is satisfied:
+        // exactly one column each) but no longer the declared shape.  Reported once under its own key, then this history is not judged further.
+        bool bad = false; for (size_t f = 0; f < s.frames.size(); ++f) if (!s.frames[f].empty() && s.frames[f].pts.size() != s.h.nPts) bad = true;
+        for (size_t f = 0; f < s.frames.size() && !bad; ++f) if (!s.frames[f].empty() && s.frames[f].subs.size() != s.h.sub && s.h.nAnalogs) bad = true;
+        if (bad) log.viol("C05", "shape/column_added_over_gap_frames@" + op, "after a column was added to a data set holding empty gap frames, the former gap frames carry only the new column | shape " + shapeSig(s));
+        offSpec = true; return;
+    }
     if (firstFilled != 0 && firstFilled != SIZE_MAX) {
         // every count is derived from stored frame 0; when frame 0 is a gap the three views fall apart in many ways: report the cause once
         std::ostringstream q; q << "frame 0 is an empty gap frame, first filled frame is " << firstFilled << ": header points=" << s.h.nPts << " POINT:USED=" << used << " header frames=" << s.h.nbFrames << " POINT:FRAMES=" << frames << " stored=" << s.frames.size() << " filled frame has " << s.frames[firstFilled].pts.size() << " points";
